@@ -117,6 +117,29 @@ def run(ctx):
     s_src = field(sub, "source")
     checks.append(("subtract-one", op is not None and src(op).endswith("Subtract") and mentions(field(sub, "destination"), counter) and s_src is not None and src(s_src).replace(" ", "").endswith("LiteralInteger(1)"), "the per-iteration update is not `SUB counter 1`"))
     checks.append(("jump-when-counter", mentions(field(jmp, "target"), target) and mentions(field(jmp, "condition"), counter), "the back edge is not `JUMP-WHEN start counter`"))
+    # the MOVE destination, the SUB destination and the JUMP-WHEN condition must be the same memory cell: the caller's
+    # reference (name and index), and the declared length must cover its index
+    def norm(e):
+        return src(unparen(e)).replace(" ", "").replace(".clone()", "") if e is not None else None
+
+    def cell(e):
+        e = unparen(e) if e is not None else None
+        if e is None:
+            return "?"
+        if norm(e) == counter:
+            return "caller-reference"
+        if e.get("k") == "struct" and str(e.get("path", "")).endswith("MemoryReference"):
+            n_, i_ = norm(field(e, "name")), norm(field(e, "index"))
+            if n_ == counter + ".name" and i_ == counter + ".index":
+                return "caller-reference"
+            return "%s[%s]" % (n_, i_)
+        return norm(e)
+
+    cells = {"MOVE destination": cell(field(mov, "destination")), "SUB destination": cell(field(sub, "destination")), "JUMP-WHEN condition": cell(field(jmp, "condition"))}
+    checks.append(("same-counter-cell", set(cells.values()) == {"caller-reference"}, "the counter is not the same memory cell in MOVE, SUB and JUMP-WHEN: %s" % cells))
+    size = field(decl, "size")
+    length = norm(field(size, "length")) if size is not None and unparen(size).get("k") == "struct" else None
+    checks.append(("declared-length-covers-index", length is not None and (counter + ".index") in length and "+1" in length, "the counter region is declared with length %s, which does not cover loop_count_reference.index" % length))
     for name, ok, msg in checks:
         key = "K8|loop-template|" + name
         res.site(key, True, {"verdict": "ok" if ok else "VIOLATION"})
